@@ -48,7 +48,7 @@ class C10(P.Property):
     assumptions = ["connections are consecutive, never overlapping (overlap is C12)",
                    "tokens under the other key are valid messages and must produce an empty result"]
     probe_names = ["forced_reconnect", "reconnect_inside_cleanup", "abort_reconnect", "second_config_refused", "second_upload_refused",
-                   "search_before_ready_refused", "foreign_sid_ignored", "unknown_type", "search_other_key", "search_absent_keyword", "decoy_service", "pipelined_pair", "ack_lost_behind_refused_pipelined_request", "malformed_content_refused", "connection_failed_on_read_error"]
+                   "search_before_ready_refused", "foreign_sid_ignored", "unknown_type", "search_other_key", "search_absent_keyword", "decoy_service", "pipelined_pair", "ack_lost_behind_refused_pipelined_request", "malformed_content_refused", "connection_failed_on_read_error", "search_on_unparsable_index"]
     exhaustive = False
 
     def setup(self):
@@ -66,7 +66,7 @@ class C10(P.Property):
             DB = [{b"both": [b"\x11" * z, b"\x12" * z], b"only1": [b"\x13" * z]},
                   {b"both": [b"\x21" * z], b"only2": [b"\x22" * z, b"\x23" * z, b"\x24" * z]}]
             K = [S.KeyGen(), S.KeyGen()]
-            E = [S.EDBSetup(K[i], DB[i]).serialize() for i in range(2)]
+            E = [S.EDBSetup(K[i], DB[i]).serialize() for i in range(2)] + [b"\x00this is not an index\xff" * 3]
             T = {(i, wd): S.TokenGen(K[i], wd.encode()).serialize() for i in range(2) for wd in WORDS}
             Kd = S.KeyGen()
             DBd = {b"both": [b"\x31" * z, b"\x32" * z, b"\x33" * z], b"only1": [b"\x34" * z, b"\x35" * z], b"only2": [b"\x36" * z]}
@@ -86,7 +86,10 @@ class C10(P.Property):
                     if kind == "config":
                         return {"do": kind, "c": rng.randint(0, 1)}
                     if kind == "upload":
-                        return {"do": kind, "e": rng.randint(0, 1)}
+                        e_ = rng.randint(0, 1)
+                        if rng.random() < 0.08:
+                            e_ = 2  # bytes that are no index of this scheme: the server stores what it is sent; a search can then not be answered
+                        return {"do": kind, "e": e_}
                     return {"do": kind, "key": rng.randint(0, 1), "w": rng.choice(WORDS)}
                 st_ = mk(k)
                 if rng.random() < 0.25:
@@ -336,8 +339,15 @@ class C10(P.Property):
                     form = "ok" if ok_reply else "refused-msg" if rep is not None else "refused-closed" if a.closed_seen else "silent"
                     out["obs"].append((st, mdo + ("+" if mi else ""), form))
                     out["cover"][f"s{st}:{mdo}{'(pipelined)' if mi else ''}:{form}"] = 1
+                    if mdo == "search" and st == 2 and edb == 2:
+                        # the accepted "index" is not one: whatever the server answers (nothing, an error, a close), the state stays ready
+                        # and the stored bytes stay what was accepted -- checked at the next connection and by the write-once check
+                        probes["search_on_unparsable_index"] = 1
+                        if not ok_reply:
+                            break
+                        continue
                     if (not ok_reply and exp and mi == 0 and len(msgs) == 2 and rep is None and a.closed_seen
-                            and not self._accepts_after(msgs[0], msgs[1], st)):
+                            and not self._accepts_after(msgs[0], msgs[1], st, edb)):
                         # the acknowledgement of an accepted request is lost when a refused request is pipelined right behind it
                         # (the server drops the connection before the queued reply leaves): applied but unacknowledged, which the
                         # property allows -- the state check at the next connection decides whether it really was applied
@@ -442,9 +452,11 @@ class C10(P.Property):
             await asyncio.sleep(2)
 
     @staticmethod
-    def _accepts_after(m1, m2, st):
+    def _accepts_after(m1, m2, st, edb=None):
         """does the reference model accept m2 right after accepting m1 in state st?"""
         st2 = {"config": 1, "upload": 2}.get(m1["do"], st)
+        if m2["do"] == "search" and (m1.get("e") == 2 if m1["do"] == "upload" else edb == 2):
+            return False  # a search on an unparsable index may end the connection
         if m2["do"] in ("config_bad", "upload_bad"):
             return False
         return (st2 == 0) if m2["do"] == "config" else (st2 == 1) if m2["do"] == "upload" else (st2 == 2)
